@@ -519,3 +519,11 @@ func substT(t *fnType, sub map[string]*fnType) *fnType {
 	}
 	return t
 }
+
+// the integer limits of package math (sized types only: MaxInt/MaxUint depend on the platform)
+var mathConsts = map[string]string{
+	"MaxUint64": "18446744073709551615", "MaxInt64": "9223372036854775807", "MinInt64": "(-9223372036854775808)",
+	"MaxUint32": "4294967295", "MaxInt32": "2147483647", "MinInt32": "(-2147483648)",
+	"MaxUint16": "65535", "MaxInt16": "32767", "MinInt16": "(-32768)",
+	"MaxUint8": "255", "MaxInt8": "127", "MinInt8": "(-128)",
+}
